@@ -5,6 +5,7 @@ C08 — line-protocol driver.
   reset                      Irc.reset() called directly (stub driver runs)
   cfg   k:v k:v ...          the configuration changes while the bot runs (same keys as `new`)
   dstart                     SocketDriver(irc)                       (real driver runs)
+  fail <n>                   the next n connection attempts are refused
   restart <now>              the process is restarted: new Irc, new SocketDriver, same networks data base
   run <now> <due> <msg> ...  one SocketDriver.run(); each message is hexcmd;hexargs;hexnick
 Observation (TAB separated): outs fsm ls req ack nak next cur auth+sent+scramstep dec nick after exc wanted policies lastdisc
@@ -60,7 +61,7 @@ def parseCfg (fs : List String) : Option Cfg := do
          joins := fBool fs "joins", hasCrypto := fBool fs "crypto", realDriver := fBool fs "real",
          ssl := fBool fs "ssl", certValidation := fBool fs "certvalidation", verifyCerts := fBool fs "verifycerts",
          servers, hasScram := fBool fs "scram", scramHashes, scramFirst := utf8 scramFirst,
-         scramFinal := scramFinal.map utf8, scramFinish := fNat fs "scramfinish" }
+         scramFinal := scramFinal.map utf8, scramFinish := fNat fs "scramfinish", tlsFails := fBool fs "tlsfails" }
 
 def parseDb (fs : List String) : Option Db := do
   let pol ← (field fs "policies").bind decPairs
@@ -99,6 +100,7 @@ def encOutBase : Out → String
   | .reconnect w srv => "R:" ++ (if w then "1" else "0") ++ ":" ++ (match srv with | none => "~" | some s => encServer s)
   | .closed => "X"
   | .connected srv tls v => "C:" ++ encServer srv ++ ":" ++ (if tls then "1" else "0") ++ ":" ++ (if v then "1" else "0")
+  | .connectFailed srv => "F:" ++ encServer srv
 
 def encOut : Out → String := encOutBase
 
@@ -196,11 +198,16 @@ def stepD (d : DState) : List String → DState × String
     match d.cfg with
     | some cfg => let s := drvStart cfg d.st; ({ d with st := s }, observeD s)
     | none => (d, "bad-op")
+  | ["fail", n] =>
+    -- the environment refuses the next `n` connection attempts
+    match n.toNat? with
+    | some n => let s := setFails n { d.st with ev := [], wire := [] }; ({ d with st := s }, observeD s)
+    | none => (d, "bad-op")
   | ["restart", now] =>
     -- the bot is stopped and started again: the networks data base persists, everything else is new
     match d.cfg, now.toNat? with
     | some cfg, some now =>
-      let base : St := { db := d.st.db, now := now, drv := { sock := d.st.drv.sock }, joinBad := d.st.joinBad }
+      let base : St := { db := d.st.db, now := now, drv := { sock := d.st.drv.sock, failNext := d.st.drv.failNext }, joinBad := d.st.joinBad }
       let s := drvStart cfg (initSt cfg base)
       ({ d with st := s }, observeD s)
     | _, _ => (d, "bad-op")
